@@ -11,12 +11,13 @@ import (
 
 // Clause is one requires/ensures/invariant line of a contract.
 type Clause struct {
-	Label string
-	Star  bool // derived from the property statement: may become a VIOLATION
-	Src   string
-	Expr  *CExpr
-	Props []string // properties served (defaults to the contract's)
-	Line  string   // file:line
+	Label     string
+	Star      bool // derived from the property statement: may become a VIOLATION
+	Src       string
+	Expr      *CExpr
+	Props     []string // properties served (defaults to the contract's)
+	Withdrawn bool     // not assumed at call sites (known finding, or a helper clause that no longer holds)
+	Line      string   // file:line
 }
 
 type LoopSpec struct {
@@ -57,11 +58,20 @@ type Contract struct {
 	Replay     string
 	Panics     []*Clause
 	Splits     []*Clause
+	Asserts    []*AssertSpec
 	Pure       bool
 	File       string
 	Opts       map[string]string
 	FrameStar  bool // the frame obligation is a ★ obligation (C20)
 	FrameProps []string
+}
+
+// AssertSpec is an assertion attached to the N-th instruction of a kind
+// (mapupdate, store) of the function body, in source order.
+type AssertSpec struct {
+	Kind   string
+	Ord    int
+	Clause *Clause
 }
 
 type GhostVar struct {
@@ -399,6 +409,24 @@ func (sp *Specs) loadSpecFile(path, pkg string) error {
 				curCS.Params = f[2:]
 			}
 			cur.CallSpecs[f[0]] = curCS
+		case "at":
+			// at mapupdate N assert[*] label: expr
+			kind, r2 := splitWord(rest)
+			ns, r3 := splitWord(r2)
+			n, err := strconv.Atoi(ns)
+			if err != nil {
+				return fail(l, "at: ordinal expected")
+			}
+			aw, r4 := splitWord(r3)
+			if aw != "assert" && aw != "assert*" {
+				return fail(l, "at: 'assert' expected")
+			}
+			cl, err := parseClause(r4, l.pos, true)
+			if err != nil {
+				return fail(l, "%v", err)
+			}
+			cl.Star = aw == "assert*"
+			c.Asserts = append(c.Asserts, &AssertSpec{Kind: kind, Ord: n, Clause: cl})
 		case "split":
 			cl, err := parseClause(rest, l.pos, false)
 			if err != nil {
